@@ -189,7 +189,7 @@ CHECKS = {
                 "+gate, and the zone's columns are exactly their interleaving; capability sets name zones. Gemini base/logical are closed terms: "
                 "documented block table (16 views), 7x5 block sizes, zone coordinates and constants decided by vm_compute. Builder models are "
                 "compared zone by zone (spacings, inits, parent and index lists of views, capabilities, constants) with the specs the library "
-                "returns for all sizes up to 4/7 and 5x3 spacings.",
+                "returns for all sizes up to 4/7 and 5x3 spacings. The three plain builders (single_col_zone.get_spec, stdlib.spec.single_zone_spec, two_col_zone.get_spec) are ALSO translated from source on every run (harness/gen/builders_translate.py, fail-closed) and proved equal to the hand models for every size and spacing (build/C14/Gen_C14_src.v).",
         "note": NOTE_COMMON + " IEEE-754 rounding is not modelled (dyadic parameters in the correspondence).",
         "technique": "Coq proofs over exact rationals (prefix sums, views with ascending indices) + vm_compute on closed Gemini terms + correspondence",
     },
